@@ -538,6 +538,7 @@ def structural_eq(m, st, a, b):
 
 # --- integers --------------------------------------------------------------------------
 
+from . import absint as _absint
 INT_TYPES = ['u8', 'u16', 'u32', 'u64', 'u128', 'usize', 'i8', 'i16', 'i32', 'i64', 'i128', 'isize']
 
 
@@ -974,7 +975,7 @@ def index_range(m, cfg, f, args, t):
             if n is None and len(ra) > 2 and ra[2].isidentifier():
                 nm = 'const:%s' % ra[2]
                 if nm not in st.ranges:
-                    st.ranges[nm] = ((0, 1 << 40),)
+                    st.ranges[nm] = ((0, _absint.len_cap()),)
                     st.symty[nm] = 'usize'
                 ln, bref, data = Int.sym(nm), base, None
             elif n is None:
